@@ -123,8 +123,9 @@ def lit_sx(v):
 # ----------------------------------------------------------------------------- schema
 
 
-def gen_schema(rng):
-    """Returns info = {"types": {name: typedef}, "order": [names], "query": "Query", "mutation": name|None}."""
+def gen_schema(rng, profile="c02"):
+    """Returns info = {"types": {name: typedef}, "order": [names], "query": "Query", "mutation": name|None}.
+    profile "c13": more list / input-object / oneOf arguments (positions inside literals matter there)."""
     enum_vals = rng.sample(["RED", "GREEN", "BLUE", "NONE", "true_", "A1"], rng.randint(2, 4))
     types = {}
     order = []
@@ -156,20 +157,33 @@ def gen_schema(rng):
     if has_inp2:
         inp_fields.append({"name": "n", "type": T("Inp2"), "default": ("o", [("x", ("i", 1))]) if rng.random() < 0.3 else None})
     add("Inp", {"kind": "input", "fields": inp_fields})
+    has_one = rng.random() < (0.8 if profile == "c13" else 0.4)
+    if has_one:
+        add("One", {"kind": "input", "oneOf": True, "fields": [
+            {"name": "s", "type": T("String"), "default": None},
+            {"name": "i", "type": T("Int"), "default": None},
+            {"name": "c", "type": T("Color"), "default": None},
+        ] + ([{"name": "l", "type": L(T("Int", rng.random() < 0.5)), "default": None}] if rng.random() < 0.4 else [])})
+    rich = profile == "c13"
 
     obj_names = ["A", "B"] + (["C"] if rng.random() < 0.7 else [])
     composite = obj_names + ["Node", "U"]
 
     def gen_arg_type():
         r = rng.random()
-        if r < 0.55:
+        if has_one and rng.random() < (0.25 if rich else 0.08):
+            b = T("One", rng.random() < 0.5)
+            if rng.random() < 0.3:
+                b = L(b, rng.random() < 0.3)
+            return b
+        if r < (0.25 if rich else 0.55):
             b = T(rng.choice(SCALARS), rng.random() < 0.3)
-        elif r < 0.7:
+        elif r < (0.35 if rich else 0.7):
             b = T("Color", rng.random() < 0.3)
-        elif r < 0.85:
+        elif r < (0.6 if rich else 0.85):
             b = T("Inp", rng.random() < 0.25)
         else:
-            inner = T(rng.choice(["Int", "String", "Color", "Inp"]), rng.random() < 0.4)
+            inner = T(rng.choice(["Int", "String", "Color", "Inp"]), rng.random() < (0.6 if rich else 0.4))
             b = L(inner, rng.random() < 0.3)
             if rng.random() < 0.2:
                 b = L(nullable(b), rng.random() < 0.2)
@@ -177,7 +191,7 @@ def gen_schema(rng):
 
     def gen_args():
         out = []
-        for i in range(rng.choice([0, 0, 0, 1, 1, 2])):
+        for i in range(rng.choice([0, 1, 1, 2, 2] if rich else [0, 0, 0, 1, 1, 2])):
             t = gen_arg_type()
             d = None
             if rng.random() < 0.4:
@@ -280,7 +294,7 @@ def schema_sdl(info):
             for f in td["fields"]:
                 d = f" = {lit_text(f['default'])}" if f["default"] is not None else ""
                 fs.append(f"  {f['name']}: {type_text(f['type'])}{d}")
-            out.append(f"input {name} {{\n" + "\n".join(fs) + "\n}")
+            out.append(f"input {name}{' @oneOf' if td.get('oneOf') else ''} {{\n" + "\n".join(fs) + "\n}")
         elif k == "union":
             out.append(f"union {name} = " + " | ".join(td["members"]))
         else:
@@ -348,7 +362,7 @@ def fields_of(info, name):
 def gen_const_literal(rng, info, t, allow_null=True, depth=0, vars_ctx=None, valid=True):
     """A literal of type t (valid unless valid=False).  vars_ctx: callable(type) -> variable name or None."""
     t = tt(t)
-    if vars_ctx is not None and rng.random() < 0.3:
+    if vars_ctx is not None and rng.random() < (0.45 if getattr(vars_ctx, "boundary", False) and depth > 0 else 0.3):
         v = vars_ctx(t)
         if v is not None:
             return ("var", v)
@@ -375,6 +389,15 @@ def gen_const_literal(rng, info, t, allow_null=True, depth=0, vars_ctx=None, val
     td = info["types"].get(n)
     if td and td["kind"] == "enum":
         return ("e", rng.choice(td["values"]))
+    if td and td["kind"] == "input" and td.get("oneOf"):
+        f = rng.choice(td["fields"])
+        # exactly one field with a non-null value (a variable here must be declared non-null)
+        one_ctx = (lambda ft: vars_ctx((ft[0], ft[1], True))) if (vars_ctx is not None and not getattr(vars_ctx, "boundary", False)) else vars_ctx
+        fs = [(f["name"], gen_const_literal(rng, info, tt(f["type"]), False, depth + 1, one_ctx, valid))]
+        if not valid and rng.random() < 0.5:
+            g = rng.choice(td["fields"])
+            fs.append((g["name"], gen_const_literal(rng, info, tt(g["type"]), False, depth + 1, None, True)))
+        return ("o", fs)
     if td and td["kind"] == "input":
         fs = []
         for f in td["fields"]:
@@ -414,6 +437,10 @@ def gen_input_value(rng, info, t, depth=0, valid=True):
     td = info["types"].get(n)
     if td and td["kind"] == "enum":
         return rng.choice(td["values"])
+    if td and td["kind"] == "input" and td.get("oneOf"):
+        f = rng.choice(td["fields"])
+        ft = tt(f["type"])
+        return {f["name"]: gen_input_value(rng, info, (ft[0], ft[1], True), depth + 1, valid)}
     if td and td["kind"] == "input":
         out = {}
         for f in td["fields"]:
@@ -429,9 +456,10 @@ def gen_input_value(rng, info, t, depth=0, valid=True):
 
 
 class DocGen:
-    def __init__(self, rng, info, invalid=False, max_depth=4):
+    def __init__(self, rng, info, invalid=False, max_depth=4, profile="c02"):
         self.rng = rng
         self.info = info
+        self.profile = profile
         self.frags = {}  # name -> {"cond": T, "sels": [...]}
         self.vars = {}  # name -> {"type": t, "default": lit|None}
         self.bool_vars = []
@@ -444,6 +472,53 @@ class DocGen:
 
     # -- variables
     def var_for(self, t):
+        if self.profile == "c13":
+            return self.var_for_boundary(t)
+        return self.var_for_plain(t)
+
+
+    def var_for_boundary(self, t):
+        """C13: the declared type of the variable is chosen around the boundary of what
+        VariablesInAllowedPosition allows for this position (validate() decides); variables are
+        reused across positions of the same shape regardless of nullability."""
+        rng = self.rng
+        t = tt(t)
+
+        def shape(x):
+            return (x[0], x[1]) if x[0] == "n" else (x[0], shape(x[1]))
+
+        def item_nullable(x):
+            return (x[0], x[1], x[2]) if x[0] == "n" else ("l", (x[1][0], x[1][1], False) if x[1][0] == "n" else x[1], x[2])
+
+        if rng.random() < 0.45:
+            cands = [n for n, v in self.vars.items() if shape(tt(v["type"])) == shape(t)]
+            if cands:
+                return rng.choice(cands)
+        if len(self.vars) >= 6:
+            return None
+        name = f"v{len(self.vars)}"
+        r = rng.random()
+        vt, default = t, None
+        if r < 0.3:
+            vt = t
+        elif r < 0.4:
+            vt = (t[0], t[1], True)
+        elif r < 0.6:
+            vt = nullable(t)  # nullable, no default (only allowed at nullable positions / positions with a default)
+        elif r < 0.8:
+            vt = nullable(t)
+            default = gen_const_literal(rng, self.info, (t[0], t[1], True), allow_null=False)
+        elif r < 0.88:
+            vt = nullable(t)
+            default = ("null",)
+        else:
+            vt = item_nullable(nullable(t))  # list of nullable items where non-null items may be expected
+            if rng.random() < 0.5:
+                default = gen_const_literal(rng, self.info, vt, allow_null=True)
+        self.vars[name] = {"type": vt, "default": default}
+        return name
+
+    def var_for_plain(self, t):
         rng = self.rng
         t = tt(t)
         if rng.random() < 0.4:
@@ -476,6 +551,11 @@ class DocGen:
             self.mutations_done.append("nullable-var-at-non-null-position")
         self.vars[name] = {"type": vt, "default": default}
         return name
+
+    def vars_ctx(self):
+        f = lambda t: self.var_for(t)  # noqa: E731
+        f.boundary = self.profile == "c13"
+        return f
 
     def bool_value(self):
         rng = self.rng
@@ -524,7 +604,7 @@ class DocGen:
                 bad = self.invalid and rng.random() < 0.12
                 if bad:
                     self.mutations_done.append("ill-typed-literal")
-                out.append((a["name"], gen_const_literal(rng, self.info, at, True, 0, self.var_for, valid=not bad)))
+                out.append((a["name"], gen_const_literal(rng, self.info, at, True, 0, self.vars_ctx(), valid=not bad)))
         if self.invalid and rng.random() < 0.06:
             out.append(("nope", ("i", 1)))
             self.mutations_done.append("unknown-arg")
@@ -702,9 +782,9 @@ def used_vars_and_frags(sels, frags, seen_frags=None, out=None):
     return out, seen_frags
 
 
-def gen_document(rng, info, invalid=False):
+def gen_document(rng, info, invalid=False, profile="c02"):
     """Returns doc = {"ops": [{"kind","name","vars":[{"name","type","default"}],"sels"}], "frags": [{"name","cond","sels"}], "mutations": [...]}"""
-    g = DocGen(rng, info, invalid=invalid, max_depth=rng.choice([2, 3, 3, 4, 4]))
+    g = DocGen(rng, info, invalid=invalid, max_depth=rng.choice([2, 3, 3, 4, 4]), profile=profile)
     ops = []
     n_ops = 1 if rng.random() < 0.75 else 2
     for i in range(n_ops):
@@ -753,6 +833,15 @@ def gen_variables(rng, info, op, mode="valid"):
         vt = tt(v["type"])
         r = rng.random()
         has_default = v["default"] is not None
+        if mode == "c13":
+            # omit / null / value, each often (what variable coercion accepts decides)
+            if (has_default or not vt[2]) and r < 0.35:
+                continue
+            if not vt[2] and r < 0.6:
+                raw[v["name"]] = None
+                continue
+            raw[v["name"]] = gen_input_value(rng, info, (vt[0], vt[1], True))
+            continue
         if has_default and r < 0.45:
             continue
         if not vt[2] and not has_default and r < 0.25:
@@ -804,6 +893,11 @@ def conforming_leaf(rng, info, n):
 def hostile_value(rng, info, t, mode, depth):
     """something that is deliberately not what type t prescribes"""
     r = rng.random()
+    if mode == "raisy":
+        # many failing resolvers sharing few exception instances (see exception_pool in checks/c02.py)
+        if r < 0.75:
+            return {"k": "raise", "tag": rng.choice([1, 1, 2, 3, 4, 5])}
+        r = rng.random()
     if r < 0.22:
         return NULL
     if r < 0.34:
@@ -820,7 +914,7 @@ def hostile_value(rng, info, t, mode, depth):
 
 def gen_data(rng, info, t, mode="conforming", depth=0, p_hostile=0.1, max_depth=6):
     t = tt(t)
-    hostile = mode == "hostile"
+    hostile = mode in ("hostile", "raisy")
     if hostile and rng.random() < p_hostile:
         return hostile_value(rng, info, t, mode, depth)
     if not t[2] and rng.random() < (0.12 if depth < max_depth else 0.6):
@@ -876,7 +970,9 @@ def data_sx(node):
             return f"(fl {v})"
         return sx_str(v)
     if k == "raise":
-        return f"(raise {node['tag']})"
+        tag = node["tag"]
+        # tag % 4 == 3: a GraphQLError that already carries the path ["ext", tag]
+        return f"(raise {tag} (p k:ext i:{tag}))" if tag % 4 == 3 else f"(raise {tag})"
     if k == "list":
         return "(l" + "".join(" " + data_sx(x) for x in node["items"]) + ")"
     tn = node["tn"]
@@ -1045,7 +1141,8 @@ def schema_sx_from_sdl(sdl):
         if isinstance(d, A.EnumTypeDefinitionNode):
             out.append(f"(enum {name} " + " ".join(v.name.value for v in d.values) + ")")
         elif isinstance(d, A.InputObjectTypeDefinitionNode):
-            out.append(f"(input {name}" + "".join(" " + argdef(f) for f in d.fields) + ")")
+            one = any(x.name.value == "oneOf" for x in d.directives or ())
+            out.append(f"({'input1' if one else 'input'} {name}" + "".join(" " + argdef(f) for f in d.fields) + ")")
         elif isinstance(d, A.UnionTypeDefinitionNode):
             out.append(f"(union {name} " + " ".join(t.name.value for t in d.types) + ")")
         elif isinstance(d, (A.ObjectTypeDefinitionNode, A.InterfaceTypeDefinitionNode)):
@@ -1061,3 +1158,100 @@ def schema_sx_from_sdl(sdl):
     q = "Query" if "Query" in names else "-"
     m = "Mutation" if "Mutation" in names else "-"
     return f"(schema {q} {m} " + " ".join(out) + ")"
+
+
+# ----------------------------------------------------------------------------- C13: merged keys in two contexts
+
+
+def two_context_info():
+    """A schema on which fields that collide on a response key differ in ways execution can observe
+    (a required argument on one side only, leaf kinds, nullability, object vs leaf)."""
+
+    def f(name, t, args=()):
+        return {"name": name, "type": t, "args": [{"name": a, "type": at, "default": d} for a, at, d in args]}
+
+    types = {
+        "P1": {"kind": "object", "ifaces": [], "fields": [
+            f("k", T("String")), f("k2", T("String"), [("req", T("Int", True), None)]), f("n", T("Int", True)), f("same", T("String")),
+            f("z", T("Int"), [("a", T("Int", True), None), ("b", T("String"), None)])]},
+        "P2": {"kind": "object", "ifaces": [], "fields": [
+            f("k2", T("String")), f("k", T("Int")), f("n", T("Int")), f("same", T("String")), f("z", T("Int")),
+            f("k3", T("String"), [("opt", T("Int", True), ("i", 4))])]},
+        "Item": {"kind": "object", "ifaces": [], "fields": [
+            f("p", T("P1")), f("q", T("P2")), f("s", T("String")), f("i", T("Int")), f("pl", L(T("P1", True)))]},
+        "Holder": {"kind": "object", "ifaces": [], "fields": [f("item", T("Item")), f("other", T("Item"))]},
+        "Dog": {"kind": "object", "ifaces": [], "fields": [f("holder", T("Holder")), f("name", T("String"))]},
+        "Cat": {"kind": "object", "ifaces": [], "fields": [f("holder", T("Holder")), f("name", T("String"))]},
+        "Pet": {"kind": "union", "members": ["Dog", "Cat"]},
+        "Query": {"kind": "object", "ifaces": [], "fields": [
+            f("pet", T("Pet")), f("pets", L(T("Pet"))), f("holder", T("Holder")), f("dog", T("Dog"))]},
+    }
+    return {"types": types, "order": list(types), "query": "Query", "mutation": None}
+
+
+def gen_two_context_document(rng):
+    """Two fragments compared once under mutually exclusive parents (`... on Dog` / `... on Cat`) and
+    once side by side on the same object, in either visiting order; their bodies collide on the
+    response key `x` (validate() decides which documents are acceptable)."""
+    leafy = [
+        "x: p { k }", "x: q { k2 }", "x: p { k2(req: 1) }", "x: q { k }", "x: p { n }", "x: q { n }",
+        "x: s", "x: i", "x: p { same }", "x: q { same }", "x: pl { k }", "x: __typename", "x: q { k3 }",
+        "x: q { k2 k3(opt: 2) }",
+    ]
+
+    def body(allow_spread):
+        parts = rng.sample(leafy, rng.choice([1, 1, 2]))
+        if allow_spread and rng.random() < 0.45:
+            parts = [rng.choice(["...F3", "...F4"])] + (parts[:1] if rng.random() < 0.3 else [])
+        return " ".join(parts)
+
+    f3, f4 = body(False), body(False)
+    via = lambda b: f"a: {rng.choice(['item', 'item', 'other'])} {{ {b} }}"  # noqa: E731
+    f1, f2 = via(body(True)), via(body(True))
+    if rng.random() < 0.65:
+        # a pair that can only be merged when the parents are mutually exclusive, and whose merge is
+        # observable at run time: the sub-selection written for `q: P2` needs arguments on `p: P1`
+        pa = rng.choice(["k", "same", "n", "k same", "z(a: 1)"])
+        qb = rng.choice(["k2", "k2 same", "z", "z k2", "same k2"])
+        first, second = f"x: p {{ {pa} }}", f"x: q {{ {qb} }}"
+        if rng.random() < 0.25:
+            first, second = second, first
+        spread_side = rng.choice([0, 1, 1, 2])  # which side reaches its body through a fragment spread
+        target = rng.choice(["item", "item", "other"])
+        if spread_side == 1:
+            f3 = second
+            f1, f2 = f"a: {target} {{ {first} }}", f"a: {target} {{ ...F3 }}"
+        elif spread_side == 2:
+            f3, f4 = first, second
+            f1, f2 = f"a: {target} {{ ...F3 }}", f"a: {target} {{ ...F4 }}"
+        else:
+            f1, f2 = f"a: {target} {{ {first} }}", f"a: {target} {{ {second} }}"
+        if rng.random() < 0.3:
+            f1, f2 = f2, f1
+    excl = rng.choice([
+        "pet { ... on Dog { o: holder { ...F1 } } ... on Cat { o: holder { ...F2 } } }",
+        "pet { ... on Dog { o: holder { ...F2 } } ... on Cat { o: holder { ...F1 } } }",
+        "pets { ... on Dog { o: holder { ...F1 } } ... on Cat { o: holder { ...F2 } name } }",
+        "pet { ... on Cat { o: holder { ...F1 } } ... on Dog { o: holder { ...F2 } } }",
+    ])
+    over = rng.choice([
+        "holder { ...F1 ...F2 }", "holder { ...F2 ...F1 }", "dog { holder { ...F1 } holder { ...F2 } }",
+        "h: holder { ...F1 } h: holder { ...F2 }", "dog { holder { ...F2 ...F1 } }",
+        "pet { ... on Dog { holder { ...F1 } } ... on Dog { holder { ...F2 } } }",
+    ])
+    blocks = [excl, over]
+    if rng.random() < 0.5:
+        blocks.reverse()
+    if rng.random() < 0.25:
+        blocks = blocks[:1]
+    q = "{ " + " ".join(blocks) + " }"
+    frs = {"F1": ("Holder", f1), "F2": ("Holder", f2), "F3": ("Item", f3), "F4": ("Item", f4)}
+    used, todo = set(), [n for n in frs if "..." + n in q]
+    while todo:
+        n = todo.pop()
+        if n in used:
+            continue
+        used.add(n)
+        todo += [m for m in frs if "..." + m in frs[n][1]]
+    text = q + "".join(f"\nfragment {n} on {frs[n][0]} {{ {frs[n][1]} }}" for n in frs if n in used)
+    return text
